@@ -1,4 +1,6 @@
-(* Finding F7b on the COMPOSED model (Model/Cfg_Composed.v: the oracle record instantiated with the generated C03/C04 kernels,
+(* HISTORICAL RECORD (F7b was repaired in /repo 25be872: cfg_checks_total_reflection = true; the statements below are conditional on
+   the flag being false and are vacuous on the repaired tree; F7b_composed_outcome shows the witness is now Err ETotalReflection).
+   Finding F7b on the COMPOSED model (Model/Cfg_Composed.v: the oracle record instantiated with the generated C03/C04 kernels,
    every partial floating-point operation guarded by its definedness).  NOT imported by Props/; no check depends on this file.
    Witness: crystal angle "auto", no poling, pump 775 nm, signal 1550 nm given by the INTERNAL angle 90 deg, in a medium of
    refractive index 2 (any index > 1 does): n sin(theta_s) = 2 > 1, the external angle asin(2) is undefined (NaN in the
